@@ -403,7 +403,8 @@ class ContractMixin:
         self.note_class(clsname)
         args, kwargs = self.eval_args(node, st)
         fields = extract.dataclass_fields(clsname, self.reg.modules) if hit else None
-        is_dc = hit is not None and any("dataclass" in ast.unparse(d) for d in hit[1].decorator_list)
+        is_dc = hit is not None and (any("dataclass" in ast.unparse(d) for d in hit[1].decorator_list)
+                                     or any(ast.unparse(b) in ("NamedTuple", "typing.NamedTuple") for b in hit[1].bases))
         anc_dc = is_dc
         if hit is not None and not is_dc:
             # inherited dataclass-ness (subclass of a dataclass without its own decorator keeps __init__)
